@@ -322,4 +322,46 @@ def firstBelowWalk (d : Store) (x : Nat) : Nat → Group → Option Group
 
 def firstBelow (c : Chain) (x : Nat) : Option Group := firstBelowWalk c.disk x (c.disk.length + 1) c.last
 
+/-! ### Write faults: one `Put`/`Delete` returns an error instead of being performed
+
+`save` and `remove` ignore the error value of every store call, so the operation carries on:
+the remaining writes are performed, the in-memory mirror and sqlite are updated, and the caller
+is told nothing. `j` = index (from 0) of the failing write among the writes still to come;
+`none` = no fault (left). -/
+
+def saveF (c : Chain) (g : Group) (j : Option Nat) : Chain × Option Nat :=
+  match j with
+  | some i =>
+    if i < 4 then
+      ({ save c g with disk := applyWrites c.disk ((saveWrites c.count g).eraseIdx i) }, none)
+    else (save c g, some (i - 4))
+  | none => (save c g, none)
+
+def addGroupF (c : Chain) (g : Group) (j : Option Nat) : AddRes × Chain :=
+  match addCheck c g with
+  | .ok => (.ok, (saveF c g j).1)
+  | r => (r, c)
+
+def removeF (c : Chain) (g : Group) (j : Option Nat) : Bool × Chain × Option Nat :=
+  match getGroupById c.disk g.pre with
+  | none => (false, c, j)
+  | some pre =>
+    match j with
+    | some i =>
+      if i < 4 then
+        (true, { (remove c g).2 with disk := applyWrites c.disk ((removeWrites c.count g pre).eraseIdx i) }, none)
+      else (true, (remove c g).2, some (i - 4))
+    | none => (true, (remove c g).2, none)
+
+def rmLoopF (h : Nat) : Nat → Chain → Option Nat → Chain
+  | 0, c, _ => c
+  | t + 1, c, j =>
+    if t + 1 > h then
+      match getGroupByHeight c.disk (t + 1) with
+      | none => rmLoopF h t c j
+      | some g => let r := removeF c g j; rmLoopF h t r.2.1 r.2.2
+    else c
+
+def rmToF (c : Chain) (h : Nat) (j : Nat) : Chain := rmLoopF h (topHeight c) c (some j)
+
 end Rangers.Model.GroupChain
